@@ -7,6 +7,9 @@
  *   <end> = e<code>         exit with <code>
  *           s<sig>          kill itself with signal <sig> (core dumps disabled)
  *           t<secs>         sleep <secs> (to be timed out by -u), then exit 0
+ *   <end> may be preceded by c<ms>_ : close stdin, stdout and stderr first (pdsh sees EOF on both streams and
+ *   goes on to rcmd_destroy -> exec_destroy -> pipecmd_wait while the command is still running), sleep <ms>
+ *   milliseconds, and only then end as <end> says
  * Plain C, no sanitizer: its exit status is the datum.
  */
 #include <signal.h>
@@ -14,6 +17,7 @@
 #include <stdlib.h>
 #include <string.h>
 #include <sys/resource.h>
+#include <time.h>
 #include <unistd.h>
 
 static int hexval(int c)
@@ -46,6 +50,19 @@ int main(int argc, char **argv)
         }
     }
     end++;
+    if (end[0] == 'c') {
+        int ms = atoi(end + 1);
+        struct timespec ts = { ms / 1000, (ms % 1000) * 1000000L };
+        char *u = strchr(end, '_');
+        if (!u)
+            return 206;
+        close(0);
+        close(1);
+        close(2);
+        while (nanosleep(&ts, &ts) < 0)
+            ;
+        end = u + 1;
+    }
     switch (end[0]) {
     case 'e':
         return atoi(end + 1);
